@@ -58,7 +58,7 @@ impl Stage for Boot {
         "bootstrap"
     }
     fn cases(&self, tier: Tier) -> u32 {
-        tier.pick(300, 5000)
+        tier.pick(500, 40000)
     }
     fn strategy(&self, _t: Tier) -> BoxedStrategy<Case> {
         let outage = prop_oneof![
